@@ -8,10 +8,10 @@ from .. import core, eqv, values, vtypes, gens
 ID = 'C17'
 LEVEL = 'exploration'
 RULE = ('two families. (call) pretty_call / pretty_call_alt invoked with: callable in {builtin function, builtin type, '
-        'module-level function, class, nested class, plain str name}, 0-4 positional value recipes (incl. the hugged sole '
+        'module-level function, C function of another module, built-in and Python classmethods, class, nested class, plain str name}, 0-4 positional value recipes (incl. the hugged sole '
         'list/dict/tuple, commented arguments, nested calls), 0-4 keyword arguments with names from a pool incl. fn, ctx, '
         'args, kwargs, self (pretty_call only with names a caller can pass), kwargs given as list of pairs / OrderedDict / '
-        'dict, x (width, indent). Oracle: the AST is Call; func dotted name == module.qualname (bare for builtins / the '
+        'dict / one-shot iterator / zip, x (width, indent). Oracle: the AST is Call; func dotted name == module.qualname (bare for builtins / the '
         'given string); positional count/order and keyword names in the given order; each argument sub-tree == AST of the '
         'argument printed alone; evaluation with a recording callable yields the given (args, kwargs) type-strictly. '
         '(class) generated dataclass / attrs definitions: 0-5 fields, names from the same pool, each with no default / '
@@ -125,13 +125,13 @@ def enumerate_cases(tier):
     arglists = [[], [['list', [['int', 1], ['int', 2]]]], [['int', 1], ['cmt', 'note', ['str', 'two']]], [['dict', [[['str', 'k'], ['int', 1]]]], ['tuple', []]]]
     kwlists = [[], [['a', ['int', 1]]], [['b', ['list', [['int', 1]]]], ['a', ['none']]], [['kwargs', ['int', 1]], ['args', ['int', 2]], ['self', ['int', 3]]]]
     for fn in sorted(vtypes.CALLABLES):
-        for mode in ('call', 'alt-list', 'alt-odict', 'alt-dict'):
+        for mode in ('call', 'alt-list', 'alt-odict', 'alt-dict', 'alt-iter', 'alt-zip'):
             for a in arglists:
                 for kw in kwlists:
                     for w in (10, 79):
                         yield {'kind': 'call', 'fn': fn, 'mode': mode, 'args': a, 'kwargs': kw, 'width': w, 'indent': 4, 'sort': w == 10}
     for kw in ([['fn', ['int', 1]], ['ctx', ['int', 2]]], [['ctx', ['list', []]]]):
-        for mode in ('alt-list', 'alt-odict', 'alt-dict'):
+        for mode in ('alt-list', 'alt-odict', 'alt-dict', 'alt-iter', 'alt-zip'):
             yield {'kind': 'call', 'fn': 'Box', 'mode': mode, 'args': [], 'kwargs': kw, 'width': 79, 'indent': 4}
 
 
@@ -172,7 +172,7 @@ def strategy(tier):
         return st.lists(st.tuples(st.sampled_from(pool), arg).map(list), max_size=4, unique_by=lambda p: p[0])
     call_alt = st.fixed_dictionaries({
         'kind': st.just('call'), 'fn': st.sampled_from(sorted(vtypes.CALLABLES)),
-        'mode': st.sampled_from(['alt-list', 'alt-odict', 'alt-dict']),
+        'mode': st.sampled_from(['alt-list', 'alt-odict', 'alt-dict', 'alt-iter', 'alt-zip']),
         'args': st.lists(arg, max_size=4), 'kwargs': kwargs_for(KW_POOL_ALT),
         'width': st.one_of(st.integers(1, 100), st.just(79)), 'indent': st.sampled_from([1, 2, 4, 8]), 'sort': st.booleans()})
     call_plain = st.fixed_dictionaries({
